@@ -45,6 +45,18 @@ MODULES = {
     "order-then-hostpromise": "import { order } from 'tsrun:host'; const v = await order('x'); export let phase = 'a'; const w = await hostP; phase = 'b'; export const both = v + w + phase; both",
     "hostpromise-in-async-fn": "export const tag = 'T'; async function f(){ const w = await hostP; return tag + w; } export const r = await f(); r",
     "hostpromise-with-import": "import { n, inc } from './dep.ts'; const w = await hostP; inc(); export const r = w + n; r",
+    # deferred answers (marker /*defer*/): the host answers every order with a promise of its own and settles those
+    # promises later, oldest first, one per Suspended that has nothing new pending; cancellations must be reported
+    # identically by every entry point
+    "defer-order": "/*defer*/ import { order } from 'tsrun:host'; const v = await order('a'); export const got = v; got",
+    "defer-two-sequential": "/*defer*/ import { order } from 'tsrun:host'; const a = await order('a'); const b = await order('b'); export const both = a + b; both",
+    "defer-all": "/*defer*/ import { order } from 'tsrun:host'; const rs = await Promise.all([order(1), order(2), order(3)]); export const joined = rs.join(); joined",
+    "defer-race": "/*defer*/ import { order } from 'tsrun:host'; const w = await Promise.race([order('x'), order('y')]); export const winner = w; winner",
+    "defer-race-then-await-pending": "/*defer*/ import { order } from 'tsrun:host'; const pa = order('a'), pb = order('b'), pc = order('c'); const r = await Promise.race([pa, pb]); const c = await pc; export const out = r + c; out",
+    "defer-race-3-then-await-pending": "/*defer*/ import { order } from 'tsrun:host'; const ps = [order('a'), order('b'), order('c')], pd = order('d'); const r = await Promise.race(ps); const d = await pd; export const out = r + d; out",
+    "defer-race-in-fn-then-await": "/*defer*/ import { order } from 'tsrun:host'; async function f(){ const pa = order('a'), pb = order('b'); return await Promise.race([pa, pb]); } const pc = order('c'); const r = await f(); export const out = r + await pc; out",
+    "defer-race-then-order": "/*defer*/ import { order } from 'tsrun:host'; const r = await Promise.race([order('a'), order('b')]); const c = await order('c'); export const out = r + c; out",
+    "defer-two-races": "/*defer*/ import { order } from 'tsrun:host'; const pe = order('e'); const r1 = await Promise.race([order('a'), order('b')]); const r2 = await Promise.race([order('c'), order('d')]); export const out = r1 + r2 + await pe; out",
     "dynamic-values": "export const now = typeof Date.now(); export const rnd = Math.random() < 1; export const big = 2 ** 40;",
 }
 
@@ -118,7 +130,7 @@ def run(tier, seed):
     chk.coverage = {"evaluations": total, "distinct_nontrivial": len(distinct), "families": fam, "programs": len(cases), "entry_points": ENTRY,
                     "samples": [{"id": cases[13]["id"], "src": cases[13]["src"]}, {"id": cases[-1]["id"]}],
                     "rule": "every program of the corpus (30 module programs with imports/re-exports/orders/errors, the C11 fault programs, C02 allocating-native templates, a slice of the C01 families) is run through all five entry points; the full observation (status, completion value, error class, console lines, trace of NeedImports/Suspended results with ids, export table) must be identical; module programs are additionally run as provided dependency and as internal source module; non-trivial = distinct observations"}
-    chk.assumptions = ["the host answers orders immediately with 'v<id>' and supplies requested modules at once in every entry point", "error messages are not compared, only classes"]
+    chk.assumptions = ["the host answers orders immediately with 'v<id>' (or, in the defer-* programs, with a promise of its own that it settles later, oldest first) and supplies requested modules at once in every entry point", "error messages are not compared, only classes"]
     return chk.finish(exhaustive=True)
 
 
